@@ -299,8 +299,38 @@ func execStressReg(t *testing.T, c *Case) *Trace {
 	w.mu.Lock()
 	w.frozen = false
 	w.mu.Unlock()
-	for _, rs := range w.allServers() {
-		rs.rs.Stop()
+	// second concurrent phase: every reverse-tunnel server is stopped from its own goroutine while other goroutines keep
+	// enumerating and querying the registry (the set only shrinks now; what must hold is the empty end state, no panic, no race)
+	{
+		var stops, queries sync.WaitGroup
+		stopQueries := make(chan struct{})
+		for q := 0; q < 3; q++ {
+			queries.Add(1)
+			go func() {
+				defer queries.Done()
+				for {
+					select {
+					case <-stopQueries:
+						return
+					default:
+					}
+					for _, ch := range w.handler.AllReverseTunnels() {
+						_ = tunnelIndexOf(ch)
+					}
+					_ = w.handler.AsChannel().Ready()
+					_ = w.handler.KeyAsChannel("k0").Ready()
+					runtime.Gosched()
+				}
+			}()
+		}
+		for _, rs := range w.allServers() {
+			rs := rs
+			stops.Add(1)
+			go func() { defer stops.Done(); rs.rs.Stop() }()
+		}
+		stops.Wait()
+		close(stopQueries)
+		queries.Wait()
 	}
 	for j := 0; j < 4000; j++ {
 		if len(w.handler.AllReverseTunnels()) == 0 {
